@@ -171,6 +171,25 @@ def err(code):
     return '(1 %d)' % code
 
 
+# sample of (input line, output line) pairs of the extracted model, re-evaluated inside Coq by run.py (kernel_crosscheck)
+MODEL_SAMPLE = []
+_SAMPLE_RNG = random.Random(12345)
+_SAMPLE_SEEN = [0]
+
+
+def _sample(lines, out, cap=400):
+    for l, o in zip(lines, out):
+        if len(l) > 4000 or o.startswith('(3'):
+            continue
+        _SAMPLE_SEEN[0] += 1
+        if len(MODEL_SAMPLE) < cap:
+            MODEL_SAMPLE.append((l, o))
+        else:
+            j = _SAMPLE_RNG.randrange(_SAMPLE_SEEN[0])      # reservoir sampling
+            if j < cap:
+                MODEL_SAMPLE[j] = (l, o)
+
+
 def run_model(lines, chunk=None):
     """Feed case lines to the extracted model; one output line per input line."""
     if not lines:
@@ -184,6 +203,7 @@ def run_model(lines, chunk=None):
         out.pop()
     if len(out) != len(lines):
         raise RuntimeError('model driver returned %d lines for %d cases' % (len(out), len(lines)))
+    _sample(lines, out)
     return out
 
 
